@@ -6,7 +6,7 @@ from typing import Callable, Dict, Iterable, Iterator, List, Optional, Set, Tupl
 
 from . import norm
 from .cfg import CFG, MUTATORS
-from .model import Func, Program, own_nodes, parent, ancestors, AnalysisError, stmt_text
+from .model import Func, Program, own_nodes, parent, ancestors, AnalysisError, stmt_text, same_fn
 
 _CFG_CACHE: Dict[int, CFG] = {}
 
@@ -31,8 +31,12 @@ def single_defs(f: Func) -> Dict[str, ast.expr]:
     if a.kwarg:
         params.add(a.kwarg.arg)
 
+    rebinds: Dict[str, List[ast.AST]] = {}
+    cur_stmt: List[ast.AST] = [f.node]
+
     def bind(t, val=None):
         if isinstance(t, ast.Name):
+            rebinds.setdefault(t.id, []).append(cur_stmt[0])
             binds[t.id] = binds.get(t.id, 0) + 1
             if val is not None:
                 defs[t.id] = val
@@ -46,6 +50,7 @@ def single_defs(f: Func) -> Dict[str, ast.expr]:
             bind(t.value)
 
     for n in own_nodes(f.node):
+        cur_stmt[0] = n
         if isinstance(n, ast.Assign):
             for t in n.targets:
                 bind(t, n.value if len(n.targets) == 1 else None)
@@ -94,8 +99,59 @@ def single_defs(f: Func) -> Dict[str, ast.expr]:
                 continue
             if any(isinstance(x, ast.Call) and not _pure_call(x) for x in ast.walk(e)):
                 continue  # substituting a side-effecting call (queue.pop(0), rng.normal(..)) would change its meaning
+            if not _operands_stable(f, name, e, rebinds):
+                continue  # an operand is re-bound between the definition and a use: the name and its defining expression differ there
             env[name] = e
     return env
+
+
+def _loops_around(n: ast.AST, root: ast.AST) -> List[ast.AST]:
+    out = []
+    p_ = parent(n)
+    while p_ is not None and p_ is not root:
+        if isinstance(p_, (ast.For, ast.While, ast.AsyncFor)):
+            out.append(p_)
+        p_ = parent(p_)
+    return out
+
+
+def _operands_stable(f: Func, name: str, e: ast.expr, rebinds: Dict[str, List[ast.AST]]) -> bool:
+    """`name = e` may stand for e at every use of name: no local read by e is bound again on a way from the definition to a use.
+    Decided by position: a re-binding r of an operand is harmless if it lies before the definition in the source (the
+    definition runs again after it in every iteration that reaches a use) or if no use lies after r / in a loop with r."""
+    ops = {x.id for x in ast.walk(e) if isinstance(x, ast.Name)} & set(rebinds)
+    if not ops:
+        return True
+    d = None
+    uses = []
+    for n in own_nodes(f.node):
+        if isinstance(n, ast.Assign) and len(n.targets) == 1 and norm.is_name(n.targets[0], name):
+            d = n
+        elif isinstance(n, ast.AnnAssign) and norm.is_name(n.target, name):
+            d = n
+        elif isinstance(n, ast.Name) and n.id == name and isinstance(n.ctx, ast.Load):
+            uses.append(n)
+    if d is None:
+        return False
+    dl = _loops_around(d, f.node)
+    for v in ops:
+        for r in rebinds[v]:
+            if isinstance(r, (ast.For, ast.AsyncFor)) and any(r is l_ for l_ in dl):
+                continue   # the loop variable of a loop around the definition: bound at the header, before the definition, in every iteration
+            if getattr(r, "lineno", 0) <= d.lineno and not isinstance(r, (ast.For, ast.AsyncFor, ast.While)):
+                # textually before the definition; harmless if it shares all loops with the definition (the definition re-runs after it)
+                rl = _loops_around(r, f.node)
+                if all(any(a is b for b in dl) for a in rl):
+                    continue
+            rl = [r] + _loops_around(r, f.node) if isinstance(r, (ast.For, ast.AsyncFor)) else _loops_around(r, f.node)
+            shared_extra = [l_ for l_ in rl if not any(l_ is x for x in dl)]   # loops around r that do not contain the definition
+            for u in uses:
+                if getattr(u, "lineno", 0) > getattr(r, "end_lineno", getattr(r, "lineno", 0)) - (1 if isinstance(r, (ast.For, ast.While)) else 0) and getattr(r, "lineno", 0) > d.lineno:
+                    return False
+                ul = _loops_around(u, f.node)
+                if any(any(l_ is x for x in ul) for l_ in shared_extra):
+                    return False
+    return True
 
 
 _PURE_FUNCS = {"len", "sum", "all", "any", "str", "list", "tuple", "isinstance", "max", "min", "int", "float", "bool", "sorted",
@@ -139,7 +195,7 @@ def attr_writes(P: Program, attr: str, include_mutation: bool = True, include_te
     for m in P.modules.values():
         if m.virtual and not include_template:
             continue
-        scopes: List[Func] = list(m.funcs.values()) + [_module_level_func(m)]
+        scopes: List[Func] = view_funcs(P, m) + [_module_level_func(m)]
         for f in scopes:
             it = list(own_nodes(f.node)) if f.qual != "<module>" else list(_module_nodes(m))
             # local aliases of the field:  x = <obj>.attr   (then x[k] = v / x.append(..) write the field)
@@ -234,7 +290,7 @@ def package_calls(P: Program, name: str, include_template: bool = True) -> List[
     for m in P.modules.values():
         if m.virtual and not include_template:
             continue
-        for f in list(m.funcs.values()) + [_module_level_func(m)]:
+        for f in view_funcs(P, m) + [_module_level_func(m)]:
             it = own_nodes(f.node) if f.qual != "<module>" else _module_nodes(m)
             for n in it:
                 if isinstance(n, ast.Call) and norm.call_name(n) == name:
@@ -411,7 +467,7 @@ def write_once_fields(P: Program, rel: str, cls: str, selfname: str = "self") ->
             continue
         ws = []
         for w in attr_writes(P, attr):
-            if w.fn.node is init.node:
+            if same_fn(w.fn, init):
                 continue
             recv = w.target.value if isinstance(w.target, ast.Attribute) else None
             if isinstance(recv, ast.Name) and recv.id == selfname and w.fn.cls and w.fn.cls != cls:
@@ -545,7 +601,7 @@ def _inlinable(P: Program, f: Func, c: ast.Call) -> Optional[Func]:
             target = cl.methods[fn.attr]
     elif isinstance(fn, ast.Name) and fn.id in f.mod.funcs and "." not in fn.id:
         target = f.mod.funcs[fn.id]
-    if target is None or target.node is f.node:
+    if target is None or same_fn(target, f):
         return None
     if not target.name.startswith("_") or target.name.startswith("__"):
         return None
@@ -625,7 +681,52 @@ def _inline_helpers(P: Program, f: Func, depth: int = 2) -> Func:
     def expand(stmts: List[ast.stmt], d: int) -> List[ast.stmt]:
         nonlocal changed_any
         out: List[ast.stmt] = []
-        for st in stmts:
+        queue = list(stmts)
+        while queue:
+            st = queue.pop(0)
+            # X = [helper(v) for v in it]   ==   X = []; for v in it: X.append(helper(v))      (only when there is a helper to look into)
+            if d > 0 and isinstance(st, ast.Assign) and len(st.targets) == 1 and isinstance(st.targets[0], ast.Name) and isinstance(st.value, ast.ListComp) \
+                    and len(st.value.generators) == 1 and not st.value.generators[0].is_async \
+                    and any(isinstance(x, ast.Call) and _inlinable(P, f, x) is not None for x in ast.walk(st.value.elt)) \
+                    and st.targets[0].id not in norm.names_in(st.value):
+                gen = st.value.generators[0]
+                body: List[ast.stmt] = [ast.Expr(value=ast.Call(func=ast.Attribute(value=ast.Name(id=st.targets[0].id, ctx=ast.Load()), attr="append", ctx=ast.Load()),
+                                                               args=[st.value.elt], keywords=[]))]
+                for c_ in reversed(gen.ifs):
+                    body = [ast.If(test=c_, body=body, orelse=[])]
+                tgt = norm.clone(gen.target)
+                for x in ast.walk(tgt):
+                    if isinstance(x, ast.Name):
+                        x.ctx = ast.Store()
+                init = ast.Assign(targets=[st.targets[0]], value=ast.List(elts=[], ctx=ast.Load()))
+                lp_ = ast.For(target=tgt, iter=gen.iter, body=body, orelse=[], type_comment=None)
+                for x in list(ast.walk(init)) + list(ast.walk(lp_)):
+                    if not hasattr(x, "lineno"):
+                        ast.copy_location(x, st)
+                ast.copy_location(init, st)
+                ast.copy_location(lp_, st)
+                queue[:0] = [init, lp_]
+                changed_any = True
+                continue
+            # recv.m(a, helper(..), b): the helper runs before the outer call; its body may be placed before the statement when
+            # everything evaluated before it is a plain name / attribute / constant
+            if d > 0 and isinstance(st, ast.Expr) and isinstance(st.value, ast.Call) and _inlinable(P, f, st.value) is None and norm.attr_chain(st.value.func) is not None \
+                    and not st.value.keywords:
+                idx = [i_ for i_, a_ in enumerate(st.value.args) if isinstance(a_, ast.Call) and _inlinable(P, f, a_) is not None]
+                if len(idx) == 1 and all(isinstance(a_, (ast.Name, ast.Constant)) or norm.attr_chain(a_) is not None for a_ in st.value.args[:idx[0]]):
+                    hc = st.value.args[idx[0]]
+                    t2 = _inlinable(P, f, hc)
+                    counter[0] += 1
+                    body2, ret2 = _instantiate(t2, hc, f"i{counter[0]}")
+                    if ret2 is not None:
+                        body2 = expand(body2, d - 1)
+                        for b in body2:
+                            ast.copy_location(b, b if hasattr(b, "lineno") else st)
+                        out.extend(body2)
+                        st.value.args[idx[0]] = ret2
+                        out.append(st)
+                        changed_any = True
+                        continue
             call = None
             kind = None
             if isinstance(st, ast.Expr) and isinstance(st.value, ast.Call):
@@ -642,12 +743,33 @@ def _inline_helpers(P: Program, f: Func, depth: int = 2) -> Func:
                 for b in body:
                     ast.copy_location(b, b if hasattr(b, "lineno") else st)
                 out.extend(body)
-                if kind == "assign":
+                if kind == "assign" and isinstance(st.targets[0], ast.Name) and isinstance(ret, ast.Name) and ret.id.endswith(f"__i{counter[0]}") \
+                        and not any(isinstance(x, ast.Name) and x.id == st.targets[0].id for a_ in list(call.args) + [k.value for k in call.keywords] for x in ast.walk(a_)):
+                    # `x = helper()` where the helper returns one of its own locals: that local *is* x from now on (no alias statement)
+                    for b in body:
+                        for x in ast.walk(b):
+                            if isinstance(x, ast.Name) and x.id == ret.id:
+                                x.id = st.targets[0].id
+                elif kind == "assign":
                     out.append(ast.copy_location(ast.Assign(targets=st.targets, value=ret if ret is not None else ast.Constant(None)), st))
                 elif kind == "return":
                     out.append(ast.copy_location(ast.Return(value=ret), st))
                 changed_any = True
                 continue
+            # `for x in helper(...)` / `if helper(...)`: the call is evaluated exactly once, before the statement
+            pos = "iter" if isinstance(st, ast.For) else ("test" if isinstance(st, ast.If) else None)
+            if pos and isinstance(getattr(st, pos), ast.Call) and d > 0:
+                t2 = _inlinable(P, f, getattr(st, pos))
+                if t2 is not None:
+                    counter[0] += 1
+                    body, ret = _instantiate(t2, getattr(st, pos), f"i{counter[0]}")
+                    if ret is not None:
+                        body = expand(body, d - 1)
+                        for b in body:
+                            ast.copy_location(b, b if hasattr(b, "lineno") else st)
+                        out.extend(body)
+                        setattr(st, pos, ret)
+                        changed_any = True
             for fld in ("body", "orelse", "finalbody"):
                 b = getattr(st, fld, None)
                 if isinstance(b, list) and b and isinstance(b[0], ast.stmt):
@@ -702,3 +824,178 @@ def private_closure(P: Program, f: Func, depth: int = 3) -> Set[str]:
                         out.discard(q)
                         changed = True
     return out
+
+
+# ---------------------------------------------------------------------------------------------------------------------
+# `xs.extend(e for v in it)`  ==  `for v in it: xs.append(e)`   (same elements, same order, same evaluation order)
+
+_DESUGAR_CACHE: Dict[int, Func] = {}
+
+
+def desugar_extend(f: Func) -> Func:
+    """A copy of f in which statement-level `X.extend(<one-generator comprehension>)` (and `X += [<comprehension>]`) is written
+    as the element-wise loop it abbreviates; f itself if there is nothing to rewrite."""
+    k = id(f.node)
+    if k in _DESUGAR_CACHE:
+        return _DESUGAR_CACHE[k]
+    node = norm.clone(f.node)
+    changed = False
+
+    def loop_of(recv: ast.expr, comp, st: ast.stmt) -> Optional[ast.stmt]:
+        if not (isinstance(comp, (ast.GeneratorExp, ast.ListComp)) and len(comp.generators) == 1 and not comp.generators[0].is_async):
+            return None
+        gen = comp.generators[0]
+        body: List[ast.stmt] = [ast.Expr(value=ast.Call(func=ast.Attribute(value=norm.clone(recv), attr="append", ctx=ast.Load()), args=[comp.elt], keywords=[]))]
+        for c in reversed(gen.ifs):
+            body = [ast.If(test=c, body=body, orelse=[])]
+        lp = ast.For(target=gen.target, iter=gen.iter, body=body, orelse=[], type_comment=None)
+        for x in ast.walk(lp):
+            ast.copy_location(x, st)
+        for x in ast.walk(lp.target):
+            if isinstance(x, ast.Name):
+                x.ctx = ast.Store()
+        return lp
+
+    def rewrite(stmts: List[ast.stmt]) -> List[ast.stmt]:
+        nonlocal changed
+        out = []
+        for st in stmts:
+            new = None
+            if isinstance(st, ast.Expr) and isinstance(st.value, ast.Call) and isinstance(st.value.func, ast.Attribute) and st.value.func.attr == "extend" \
+                    and len(st.value.args) == 1 and not st.value.keywords and isinstance(st.value.func.value, (ast.Name, ast.Attribute)):
+                new = loop_of(st.value.func.value, st.value.args[0], st)
+            elif isinstance(st, ast.AugAssign) and isinstance(st.op, ast.Add) and isinstance(st.target, (ast.Name, ast.Attribute)) and isinstance(st.value, ast.ListComp):
+                new = loop_of(st.target, st.value, st)
+            if new is not None:
+                changed = True
+                out.append(new)
+                continue
+            for fld in ("body", "orelse", "finalbody"):
+                b = getattr(st, fld, None)
+                if isinstance(b, list) and b and isinstance(b[0], ast.stmt):
+                    setattr(st, fld, rewrite(b))
+            if isinstance(st, ast.Try):
+                for h in st.handlers:
+                    h.body = rewrite(h.body)
+            out.append(st)
+        return out
+
+    node.body = rewrite(node.body)
+    if not changed:
+        _DESUGAR_CACHE[k] = f
+        return f
+    ast.fix_missing_locations(node)
+    for n in ast.walk(node):
+        for ch in ast.iter_child_nodes(n):
+            ch._parent = n  # type: ignore[attr-defined]
+    node._parent = getattr(f.node, "_parent", None)  # type: ignore[attr-defined]
+    g = Func(f.mod, f.qual, node, f.cls)
+    _DESUGAR_CACHE[k] = g
+    return g
+
+
+# ---------------------------------------------------------------------------------------------------------------------
+# expression-level look-through of private predicates:  `self._parents_completed(op)`  ->  all(... for p in op.parents)
+
+_PRED_CACHE: Dict[Tuple[int, int], Func] = {}
+
+
+def inline_predicates(P: Program, f: Func, depth: int = 2) -> Func:
+    """A copy of f in which calls of private, side-effect-free helpers of the same class / module whose body is a single
+    `return <expr>` are replaced by that expression (parameters -> arguments, comprehension variables renamed apart)."""
+    k = (id(P), id(f.node))
+    if k in _PRED_CACHE:
+        return _PRED_CACHE[k]
+    changed = [False]
+    cnt = [0]
+
+    class T(ast.NodeTransformer):
+        def visit_Call(self, c: ast.Call):
+            c = self.generic_visit(c)
+            fn = c.func
+            target = None
+            if isinstance(fn, ast.Attribute) and norm.is_name(fn.value, "self") and f.cls:
+                cl = f.mod.classes.get(f.cls)
+                if cl and fn.attr in cl.methods:
+                    target = cl.methods[fn.attr]
+            elif isinstance(fn, ast.Name) and fn.id in f.mod.funcs and "." not in fn.id:
+                target = f.mod.funcs[fn.id]
+            if target is None or same_fn(target, f) or not target.name.startswith("_") or target.name.startswith("__") or target.name in KEEP_CALLS:
+                return c
+            if c.keywords or any(isinstance(a, ast.Starred) for a in c.args) or target.decorators():
+                return c
+            body = [s for s in target.node.body if not (isinstance(s, ast.Expr) and isinstance(s.value, ast.Constant)) and not isinstance(s, ast.Pass)]
+            if len(body) != 1 or not isinstance(body[0], ast.Return) or body[0].value is None:
+                return c
+            e = body[0].value
+            if any(isinstance(x, (ast.Yield, ast.YieldFrom, ast.Await, ast.NamedExpr, ast.Lambda)) for x in ast.walk(e)):
+                return c
+            if any(isinstance(x, ast.Call) and not _pure_call(x) for x in ast.walk(e)):
+                return c
+            params = target.params()
+            env: Dict[str, ast.expr] = {}
+            if isinstance(fn, ast.Attribute):
+                env[params[0]] = fn.value
+                params = params[1:]
+            if len(params) != len(c.args):
+                return c
+            for p_, a in zip(params, c.args):
+                env[p_] = a
+            cnt[0] += 1
+            e2 = norm.clone(e)
+            bound = {x.id for comp in ast.walk(e2) if isinstance(comp, ast.comprehension) for x in ast.walk(comp.target) if isinstance(x, ast.Name)}
+            for x in ast.walk(e2):
+                if isinstance(x, ast.Name) and x.id in bound:
+                    x.id = f"{x.id}__p{cnt[0]}"
+            changed[0] = True
+            return norm.Subst(env).visit(e2)
+
+    node = norm.clone(f.node)
+    for _ in range(depth):
+        before = ast.dump(node)
+        node = T().visit(node)
+        if ast.dump(node) == before:
+            break
+    if not changed[0]:
+        _PRED_CACHE[k] = f
+        return f
+    ast.fix_missing_locations(node)
+    for n in ast.walk(node):
+        for ch in ast.iter_child_nodes(n):
+            ch._parent = n  # type: ignore[attr-defined]
+    node._parent = getattr(f.node, "_parent", None)  # type: ignore[attr-defined]
+    g = Func(f.mod, f.qual, node, f.cls)
+    _PRED_CACHE[k] = g
+    return g
+
+
+
+# ---------------------------------------------------------------------------------------------------------------------
+# the package as the rules see it: every function with its private helpers inlined, minus the helpers that were absorbed
+
+_VIEW_CACHE: Dict[int, Dict[str, List[Func]]] = {}
+
+
+def view_funcs(P: Program, m) -> List[Func]:
+    """Functions of module m in the form P.fn() hands them out (helpers inlined); a private helper that is inlined at every one
+    of its call sites is not listed on its own (its statements are already seen inside its callers)."""
+    k = id(P)
+    if k not in _VIEW_CACHE:
+        views: Dict[str, List[Tuple[Func, Func]]] = {}
+        still_called: Set[str] = set()
+        inlined_somewhere: Set[str] = set()
+        for mm in P.modules.values():
+            lst = []
+            for f in mm.funcs.values():
+                v = inline_helpers(P, f)
+                lst.append((f, v))
+                raw_calls = {norm.call_name(c) for c in own_nodes(f.node) if isinstance(c, ast.Call)}
+                view_calls = {norm.call_name(c) for c in own_nodes(v.node) if isinstance(c, ast.Call)}
+                still_called |= {n for n in view_calls if n}
+                inlined_somewhere |= {n for n in raw_calls - view_calls if n}
+            mf = _module_level_func(mm)
+            still_called |= {norm.call_name(c) for c in _module_nodes(mm) if isinstance(c, ast.Call)} - {None}
+            views[mm.rel] = lst
+        absorbed = {n for n in inlined_somewhere if n not in still_called and n.startswith("_") and not n.startswith("__")}
+        _VIEW_CACHE[k] = {rel: [v for f, v in lst if f.name not in absorbed] for rel, lst in views.items()}
+    return _VIEW_CACHE[k].get(m.rel, [])
